@@ -548,9 +548,10 @@ def build():
     C.fn("Timer.pause", params=dict(timer_value=Int, kwargs=Opaque("Kwargs")), requires=["timer_value >= 0"],
          ensures=[("paused: not running and no periodic tick left", "self.running == False and self.timer is None"),
                   ("count unchanged", "self._ticks == old(self._ticks)"),
-                  ("a timed pause un-pauses by calling start() after exactly the requested time; an untimed one adds no "
-                   "un-pause", "unpause_calls_start_after(timer_value) if timer_value > 0 else "
-                               "pause_pending() == old(pause_pending())"),
+                  ("PA1: a timed pause un-pauses by calling start() after exactly the requested time; an untimed pause has NO "
+                   "un-pause pending - not even the one of an earlier timed pause that is still running (it would restart "
+                   "a timer that was paused for good: ticks while paused)",
+                   "unpause_calls_start_after(timer_value) if timer_value > 0 else not pause_pending()"),
                   ("paused event once", "posted_paused() == 1")],
          modifies=["self.running", "self.timer", "self.delay.pending"], raises={}, emits=lambda I, env, res: None)
     C.helpers["pause_pending"] = lambda I: VBool(common.delay_present(
@@ -643,6 +644,9 @@ def build():
     C.opaque_info["Handle"] = handle_info
     C.opaque_info["Kwargs"] = kw_info
 
+    C.finite_checks.append(common.native_demo_check(
+        "c13_stale_unpause_into_untimed_pause.py",
+        "a timed pause followed by an untimed pause: the timer stays paused (no tick) until it is started again"))
     C.assume("A-ASYNCIO: the loop calls a live handle's callback exactly once, not before when[h]; cancel() "
              "prevents it; handles are fresh")
     C.assume("A-LIB: uuid4() strings are fresh and non-empty")
